@@ -464,7 +464,15 @@ func runWalletHist(c *Ctx) {
 	witnessF13(c)
 	witnessF10(c)
 	witnessF16(c)
-	restoreNoticesSettledMelt(c)
+	{
+		// a scenario added later must not shift the random histories below (their PRNG forks are taken from c.Rng in the
+		// loop): it runs on a private generator (seeded change C19-4 was caught by a random history only and was lost
+		// when this scenario first consumed c.Rng)
+		saved := c.Rng
+		c.Rng = NewRng(c.Seed ^ 0x5e771ed)
+		restoreNoticesSettledMelt(c)
+		c.Rng = saved
+	}
 	// every history draws from its own fork of the run's PRNG: history h of (seed, tier) can be replayed alone
 	// (VERIF_WH_ONLY=h) without running the ones before it
 	only := -1
